@@ -21,6 +21,8 @@ CLAIMS = {
  "C12": "Theorems C12_* : for the seven integer scales (uniform + UTC) cmp/== are exactly comparison/equality of the denoted TAI instants, flipped by operand swap, instants preserved by conversion. ET/TDB operands: 100 ns clause by correspondence (partial).",
  "C14": "Theorems C14_* : floor = greatest multiple of |s| not above d, ceil = floor+|s| clamped, round nearest with ties up, zero step -> 0, for all canonical d, s outside the recorded known finding (floor within one step of MIN, pinned by the repo's own test).",
  "C15": "Theorems C15_* : from every reachable iterator state, the i-th call of next yields start + (j+i)*step exactly (in start's scale) while j+i < N and None for ever after, N = #{k : k*step < span} or <=; induction on the number of calls, unbounded.",
+ "C17": "Theorems C17_* : the JD/MJD/J2000/UNIX constants are exactly 15 020 d, 2 400 000.5 d, 2 415 020.5 d, 3 155 716 800 s, day 25 567 (closed facts on the Flocq model of Unit * f64); every Duration-valued view = the scale's duration plus that constant, for all epochs. Partial: float-valued accessors and from_mjd/from_jde/from_unix_seconds have their dataflow proved and are bit-exact model=code in correspondence; the 'few ulps' bound is checked against exact rationals there, not proved.",
+ "C18": "(partial) Theorems C18_* : Unit * f64 and Duration * f64 are total with canonical results (no panic, no loop), infinities -> bounds, NaN -> zero (each unit), Duration * f64 = the exact real product truncated toward zero and clamped whenever |count * mantissa| fits an i128, f64 factor table = integer table. Not proved: ulp bounds of to_seconds/to_unit and exactness of Unit * f64 on arbitrary whole products (bit-exact Flocq model vs code + exact-rational windows in correspondence).",
  "C20": "Theorems C20_* : week/time-of-week build and split are exact and mutually inverse (week fits u32), ns counters round-trip and give Err exactly when the count is negative or >= one century. Day-of-year float agreement: correspondence with tolerance (partial).",
 }
 checks = []
